@@ -264,7 +264,10 @@ class Error:
         body = f"{self.reason}\r\n\r\n{self.body}"
         ident = ident if ident else "server"
         tag = f"\r\n\r\n(generated by {ident})"
-        body = (body + tag).encode("utf-8")
+        # the text may come from a traceback (expose_tracebacks): a lone
+        # surrogate, e.g. in an undecodable file name, must not make the
+        # error response itself fail
+        body = (body + tag).encode("utf-8", "backslashreplace")
         headers = [("Content-Type", "text/plain; charset=utf-8")]
 
         return status, headers, body
